@@ -68,16 +68,20 @@ def run(repo, res):
         if isinstance(s, ast.Try):
             for h in s.handlers:
                 hd = block_defs(h.body)
-                if "edge_lik" in hd:
+                # the handler rebuilds   inside_div_gi = ratio(inside[parent], ratio(<message>, <denominator>))
+                # either directly or through temporaries: inline the handler's locals first
+                tgt = [k for k, v in hd.items() if isinstance(v, ast.Call) and U(v.func) == "self.lik.ratio" and len(v.args) == 2 and "parent" in U(v.args[0])]
+                if len(tgt) == 1:
                     ld = {}
                     # spanfrac is defined in the edge loop before the try
                     for s2, g2 in stmts(op):
                         if isinstance(s2, ast.Assign) and U(s2.targets[0]) == "spanfrac":
                             ld["spanfrac"] = s2.value
                     ld.update(hd)
-                    msg_out = inline_block(hd["edge_lik"], {k: v for k, v in ld.items() if k != "edge_lik"})
-                    if "cur_g_i" in hd and isinstance(hd["cur_g_i"], ast.Call) and len(hd["cur_g_i"].args) == 2:
-                        denom_out = hd["cur_g_i"].args[1]
+                    full = inline_block(hd[tgt[0]], {k: v for k, v in ld.items() if k != tgt[0]})
+                    inner = full.args[1]
+                    if isinstance(inner, ast.Call) and U(inner.func) == "self.lik.ratio" and len(inner.args) == 2:
+                        msg_out, denom_out = inner.args
     if msg_out is None:
         raise AnalysisError("R10.1: recomputed message not found in outside_pass")
     al = [(r"\bself\.inside\b", "inside"), (r"\bself\.denominator\b", "denominator")]
